@@ -62,6 +62,7 @@ def template_init(j=0):
     import matplotlib.pyplot as plt
     mcsim._stub_pyplot(plt)
     _state['templates'] = HW.load_templates()
+    _state['ranges'] = HW.declared_ranges()
     _state['pkg_listing'] = None
 
 
@@ -176,13 +177,24 @@ FAULT_AT = [1, 2, 3, 4, 6, 8, 10, 12, 15, 20, 25, 30, 40, 60]
 SLOT_PATHS = ['in/req0.txt', 'in dir/req 1.txt', 'deep/a/b/req2.txt']
 
 
-def gen_request(cs, templates, kind=None, allow_slow=False, fail=None):
+def gen_request(cs, templates, kind=None, allow_slow=False, fail=None, neighbour_of=None):
+    if neighbour_of is not None:
+        # same configuration family, exactly one more parameter moved: the pairs that expose incomplete memo keys
+        ti = neighbour_of['template']
+        tw = HW.neighbour_tweak(cs, templates[ti], _state.get('ranges', {}))
+        tweaks = [x for x in neighbour_of['tweaks'] if tw is None or x[0] != tw[0]] + ([tw] if tw else [])
+        return {'template': ti, 'tweaks': [tuple(x) for x in tweaks], 'poison': None}
     pool = [i for i, t in enumerate(templates) if (kind is None or t['kind'] == kind) and (allow_slow or t['cost'] == 'fast')]
     ti = pool[cs.choose(len(pool), 'template')]
     t = templates[ti]
     tweaks_tab = HW.HIP_TWEAKS if t['kind'] == 'hip' else HW.GEO_TWEAKS
     tweaks = []
     for _ in range(cs.choose(3, 'ntweak')):
+        if cs.choose(2, 'tweakkind') == 1:
+            tw = HW.neighbour_tweak(cs, t, _state.get('ranges', {}))
+            if tw:
+                tweaks.append(tw)
+            continue
         a = cs.choose(len(tweaks_tab), 'tweak')
         tweaks.append((tweaks_tab[a][0], tweaks_tab[a][1][cs.choose(len(tweaks_tab[a][1]), 'tweakv')]))
     poison = None
@@ -210,9 +222,11 @@ def gen_history(cs, templates, tier, force=None):
     force = force or {}
     h = {}
     h['faulty'] = force.get('faulty', cs.choose(3, 'faulty') == 2)      # fault-free and fault-injecting configurations are separate
-    allow_slow = tier == 'thorough' and cs.choose(4, 'slow') == 3
+    allow_slow = cs.choose(4, 'slow') == 3 if tier == 'thorough' else cs.choose(12, 'slow') == 11
     h['start_cwd'] = CWD_DIRS[cs.choose(len(CWD_DIRS), 'startcwd')]
     nops = 2 + cs.choose(7, 'nops')
+    if allow_slow and tier != 'thorough':
+        nops = min(nops, 4)
     ops = []
     slots = {}
     nruns = 0
@@ -228,7 +242,7 @@ def gen_history(cs, templates, tier, force=None):
             if slot not in slots or slots[slot]['kind'] != rk:
                 req = gen_request(cs, templates, rk, allow_slow)
                 ops.append({'op': 'write', 'slot': slot, 'req': req, 'kind': rk})
-                slots[slot] = {'kind': rk}
+                slots[slot] = {'kind': rk, 'req': req}
             op = {'op': 'run', 'entry': entry, 'slot': slot, 'client': [0, 0, 2, 1][cs.choose(4, 'client')],
                   'out': OUT_FORMS[cs.choose(len(OUT_FORMS), 'out')], 'reuse': cs.choose(2, 'reuse') == 1}
             if entry == 'client_params':
@@ -242,7 +256,11 @@ def gen_history(cs, templates, tier, force=None):
             if not slots:
                 continue
             sl = sorted(slots)[cs.choose(len(slots), 'rwslot')]
-            req = gen_request(cs, templates, slots[sl]['kind'], allow_slow)
+            if cs.choose(2, 'neighbour') == 1:
+                req = gen_request(cs, templates, neighbour_of=slots[sl]['req'])
+            else:
+                req = gen_request(cs, templates, slots[sl]['kind'], allow_slow)
+            slots[sl]['req'] = req
             ops.append({'op': 'write', 'slot': sl, 'req': req, 'kind': slots[sl]['kind']})
             if cs.choose(2, 'rerun') == 1 and slots[sl]['kind'] == 'geo':
                 # run the rewritten file again straight away through a client (the interesting case for caches)
@@ -318,6 +336,7 @@ def run_one(payload):
     import numpy as np
     import random as _random
     seed = payload['seed']
+    t_start = K._real['time.monotonic']()
     cs = ChoiceSource(seed, replay=payload.get('choices'))
     tier = payload.get('tier', 'quick')
     templates = _state['templates']
@@ -390,6 +409,7 @@ def run_one(payload):
         if payload.get('want_log'):
             rec['log'] = [list(e) for e in k.log[-payload['want_log']:]]
         rec['choices'] = list(cs.trace)
+        rec['wall_s'] = round(K._real['time.monotonic']() - t_start, 3)
         return rec
     finally:
         tempfile.tempdir = None
@@ -487,7 +507,10 @@ class Exec:
         self.set_model()
         k = self.k
         K.cur().atomic += 1
-        for op in self.h['ops']:
+        skip = set(self.payload.get('skip_ops') or [])
+        for opi, op in enumerate(self.h['ops']):
+            if opi in skip:
+                continue
             self.op_sig.append(op['op'] + (':' + op['entry'] if op.get('entry') else ''))
             kind = op['op']
             if kind == 'write':
@@ -588,6 +611,9 @@ class Exec:
         elif entry == 'cli':
             arg, report_path, json_path = self.out_paths(op['out'], cwd)
         relinput = entry == 'cli' and self.cs.choose(2, 'relinput') == 1
+        pre = {x: _file_sha(x) for x in (report_path, json_path) if x}
+        if report_path and pre.get(report_path):
+            self.probe('report_already_present_before_run')
         served_from_cache = False
         try:
           with self.live():
@@ -671,9 +697,13 @@ class Exec:
                     self.V('C08', 'stale_result', 'cache_hit_for_failing_content',
                            'client returned a cached result although the current content of the request fails in a fresh process')
                 else:
-                    cls = 'exit_status' if entry == 'cli' else 'history_dependent_result'
-                    self.V('C20' if entry == 'cli' else 'C08', cls, f'{entry}_unexpected_success',
-                           f"{entry} run succeeded although the same content fails in a fresh process ({exp.get('exc')}: {exp.get('msg')})")
+                    if entry == 'cli':
+                        self.V('C20', 'exit_status', 'cli_exit_0_on_failure',
+                               f"python -m geophires_x ended with {exc or 'exit status 0'} although the simulation fails "
+                               f"({exp.get('exc')}: {exp.get('msg')})")
+                    else:
+                        self.V('C08', 'history_dependent_result', f'{entry}_unexpected_success',
+                               f"{entry} run succeeded although the same content fails in a fresh process ({exp.get('exc')}: {exp.get('msg')})")
             elif exp['outcome'] != 'ok' and entry in ('client', 'client_params', 'hip') and exc != 'RuntimeError' \
                     and not (txt is None and entry == 'client_params'):
                 self.V('C08', 'failure_class', f'{entry}_{exc}', f'client signalled failure with {exc} instead of RuntimeError')
@@ -681,7 +711,7 @@ class Exec:
         if entry in ('cli', 'main_argv'):
             rp_exists = os.path.exists(report_path)
             jp_exists = os.path.exists(json_path)
-            if outcome == 'ok' and not fired:
+            if outcome == 'ok' and not fired and exp['outcome'] == 'ok':
                 if not rp_exists:
                     self.V('C20', 'wrong_output_path', f'{entry}_{op["out"]}', f'no report at {report_path.replace(self.sb, "$SB")}')
                 else:
@@ -689,10 +719,10 @@ class Exec:
                         report = f.read()
                 if not jp_exists:
                     self.V('C20', 'missing_json', f'{entry}_{op["out"]}', f'no JSON at {json_path.replace(self.sb, "$SB")}')
-            elif exp['outcome'] != 'ok' and not fired and op['out'] != 'absent' or \
-                    (exp['outcome'] != 'ok' and not fired and 'decoy' not in cwd):
-                if rp_exists and not (op['out'] == 'absent' and 'decoy' in cwd):
-                    self.V('C20', 'report_written_on_failure', f'{entry}', f'failing run left a report at {report_path.replace(self.sb, "$SB")}')
+            elif exp['outcome'] != 'ok' and not fired:
+                # a report may legitimately sit there from an earlier successful run; the failing run must not create or touch one
+                if rp_exists and _file_sha(report_path) != pre.get(report_path):
+                    self.V('C20', 'report_written_on_failure', f'{entry}', f'failing run wrote a report at {report_path.replace(self.sb, "$SB")}')
             # a failing run whose expected outcome is ok but that failed through exit_status is already reported
             if entry == 'cli' and exp['outcome'] == 'ok' and outcome == 'raised' and not fired and rp_exists and not jp_exists:
                 self.V('C20', 'missing_json', f'{entry}_{op["out"]}',
@@ -737,12 +767,7 @@ class Exec:
                 self.client_seen[(op['client'], op['slot'])] = sha(str(eff))
         else:
             self.result_digest.update(f'{outcome}'.encode())
-        if report_path:
-            for x in (report_path, json_path):
-                try:
-                    K._real['os.unlink'](x)
-                except OSError:
-                    pass
+        # (reports stay where they were written: later operations run against a directory that already holds them)
 
     def check_parser(self, report):
         """C10: order-independence of the parser over every set.pop() order + independent tokenisation"""
@@ -809,6 +834,14 @@ class Exec:
             op['_failed'] = True
             self.probe('mc_failed')
         self.check_ambient(op, argv_clause=True)
+
+
+def _file_sha(p):
+    try:
+        with K._real['open'](p, 'rb') as f:
+            return hashlib.sha256(f.read()).hexdigest()
+    except OSError:
+        return None
 
 
 def _first_diff(a, b):
